@@ -386,6 +386,27 @@ def rule_attach_detach(ctx):
         ctx.check(st_ok, R, "sets-flag", sb.where(0), "suspend_threads records threads_suspended = true", "threads_suspended is not set after attaching")
 
 
+def rule_blocking_wait(ctx, R="C03/attach-detach"):
+    """PTRACE_DETACH (and every other request) is accepted only while the tracee is in a ptrace-stop: after PTRACE_ATTACH the dumper
+    must WAIT for the stop — waitpid with __WALL and nothing else (no WNOHANG polling with a give-up path: detaching a tracee that has
+    not stopped yet fails with ESRCH, which ptrace_detach maps to Ok, and the thread stays attached for good)."""
+    b = ctx.body(R, PD + "::suspend_thread")
+    if b is None:
+        return
+    o = Origin(b)
+    ws = [(bi, o.call_args(bi)) for bi, t in b.calls(lambda c: (c.short or "").endswith("wait::waitpid"))]
+    ctx.floor(R, "waitpid after attach", len(ws), 1)
+    for bi, a in ws:
+        fl = strip(a[1])
+        val = None
+        if fl[0] == "agg" and fl[2] == "Some":
+            v = core(dict(fl[3])["0"])
+            if is_const(v) and isinstance(v[1], int):
+                val = v[1]
+        ctx.check(val == 0x40000000, R, "blocking-wait", b.where(bi), "the stop is awaited with waitpid(tid, __WALL): blocking, all children",
+                  "the attach stop is awaited with flags %s (expected exactly __WALL = 0x40000000): with WNOHANG the tracee may not have stopped when the code goes on to detach" % (hex(val) if val is not None else show(fl)[:60]))
+
+
 def rule_reinject(ctx):
     R = "C03/reinject"
     b = ctx.body(R, PD + "::suspend_thread")
@@ -563,6 +584,7 @@ def run(ctx):
     rule_dumper_dropped(ctx)
     rule_resume_all(ctx)
     rule_attach_detach(ctx)
+    rule_blocking_wait(ctx)
     rule_reinject(ctx)
     rule_resume_before_return(ctx)
     rule_tracer_thread(ctx)
